@@ -96,6 +96,10 @@ def check(ctx: Ctx) -> None:
     for k in sorted(used):
         ctx.check(k in keys, 'C19.R3', sr, f'block:key:{k}', f'{k}: is a property the loader knows', f'the suggested block uses the property {k!r}, which the loader rejects (known: {sorted(keys)})')
     ctx.check({'match', 'category'} <= used, 'C19.R3', sr, 'block:required', 'the block carries match: and category:', f'the suggested block lacks match:/category: (has {sorted(used)})')
+    # … and the loader reads each line of the block back as written (a merchant name or a pattern may contain '#', quotes, brackets)
+    from .c17 import _line_loop, line_as_written
+    mp_ = proj.func('merchant_engine.MerchantEngine.parse')
+    line_as_written(ctx, 'C19.R3', mp_, _line_loop(ctx, mp_))
     # the suggestion is computed from the very description it is listed for
     cd = proj.func('commands.discover.cmd_discover')
     cfl = get_flow(proj, cd)
@@ -145,6 +149,38 @@ def r4_contiguous(ctx: Ctx, sp: FuncInfo) -> None:
     w = [s_ for s_ in ast.walk(sp.node) if isinstance(s_, ast.Assign) and src(s_.targets[0]) == (src(j[0].args[0]) if j else '')]
     ok = ok and bool(w) and src(w[0].value).replace(' ', '').endswith('.split()[:3]')
     ctx.check(ok, 'C19.R4', sp, 'first-words', 'the pattern consists of the first words of what is left, in order', 'the pattern is not built from the leading words in order')
+    # nothing but the kept words and the separator goes into the pattern: a regex assertion (\\b, ^, $, look-around) added around them demands
+    # something of the neighbouring characters that the description need not satisfy (\\b fails next to punctuation: `7-ELEVEN (STORE 33)`)
+    rets = [r for r in fl.cfg.stmts() if isinstance(r, ast.Return) and r.value is not None]
+    asserts = []
+    ret_names = {r.value.id for r in rets if isinstance(r.value, ast.Name)}
+    glue = []          # string literals glued onto the result: operands of +, parts of f-strings, receivers of .join, % / .format templates
+    for st in list(fl.cfg.stmts()):
+        v = st.value if isinstance(st, (ast.Assign, ast.AugAssign, ast.Return)) else None
+        if v is None:
+            continue
+        tgt_ok = isinstance(st, ast.Return) or any(isinstance(t, ast.Name) and t.id in ret_names for t in (st.targets if isinstance(st, ast.Assign) else [st.target]))
+        if not tgt_ok:
+            continue
+        for n_ in ast.walk(v):
+            if isinstance(n_, ast.BinOp) and isinstance(n_.op, (ast.Add, ast.Mod)):
+                glue += [x.value for x in (n_.left, n_.right) if isinstance(x, ast.Constant) and isinstance(x.value, str)]
+            elif isinstance(n_, ast.JoinedStr):
+                glue += [x.value for x in n_.values if isinstance(x, ast.Constant) and isinstance(x.value, str)]
+            elif isinstance(n_, ast.Call) and isinstance(n_.func, ast.Attribute) and n_.func.attr in ('join', 'format') and isinstance(n_.func.value, ast.Constant) and isinstance(n_.func.value.value, str):
+                glue.append(n_.func.value.value)
+        if isinstance(st, ast.AugAssign) and isinstance(v, ast.Constant) and isinstance(v.value, str):
+            glue.append(v.value)
+    for lit in glue:
+        try:
+            tree = sre_parse.parse(lit)
+        except Exception:
+            continue
+        if any(op == sre_c.AT or op in (sre_c.ASSERT, sre_c.ASSERT_NOT) for op, _av in tree):
+            asserts.append(lit)
+    ctx.check(not asserts, 'C19.R4', sp, 'no-assertions', 'the pattern is the kept words joined by the separator, with no regex assertion added',
+              f'the suggested pattern is wrapped in / joined with {sorted(set(asserts))}: a zero-width assertion constrains the characters next to the words, so the rule does not match '
+              f'its own description when the kept text starts or ends with punctuation (`*PENDING* HULU`, `J.CREW FACTORY INC.`)')
     ctx.need(n >= 4, f'C19.R4: only {n} deletions found in suggest_pattern')
 
 
